@@ -125,6 +125,7 @@ type TermTable struct {
 	True  *Term
 	False *Term
 	hasMulDiv map[int]bool
+	scaled    map[int]bool // multiplications by a positive constant known not to overflow (durations)
 }
 
 func NewTermTable() *TermTable {
@@ -292,6 +293,24 @@ func (tt *TermTable) Eq(a, b *Term) *Term {
 	if a.sort != b.sort {
 		panic(fmt.Sprintf("eq sort mismatch %v %v", a.sort, b.sort))
 	}
+	if a.sort.K == KBV && a.sort.W == 64 && len(tt.scaled) > 0 {
+		x, c, okx := tt.scaledParts(a)
+		y, c2, oky := tt.scaledParts(b)
+		switch {
+		case okx && oky && c == c2:
+			return tt.Eq(x, y)
+		case okx && b.IsConst():
+			if b.I64()%int64(c) != 0 {
+				return tt.False
+			}
+			return tt.Eq(x, tt.Const(64, uint64(b.I64()/int64(c))))
+		case oky && a.IsConst():
+			if a.I64()%int64(c2) != 0 {
+				return tt.False
+			}
+			return tt.Eq(y, tt.Const(64, uint64(a.I64()/int64(c2))))
+		}
+	}
 	if a == b {
 		if a.sort.K == KFP {
 			// bitwise identical terms: structural equality
@@ -329,11 +348,53 @@ func (tt *TermTable) Eq(a, b *Term) *Term {
 
 // ---- bit-vectors ----
 
+// MulScaled builds x*c for a positive constant c under the caller's guarantee that
+// neither this product nor the sums/differences later formed from such products
+// overflow. Comparisons and +/- between scaled values are then rewritten to the
+// unscaled operands (x*c < y*c  <=>  x < y), which keeps multiplication out of the queries.
+func (tt *TermTable) MulScaled(x *Term, c uint64) *Term {
+	t := tt.Bin(OpMul, x, tt.Const(x.sort.W, c))
+	if t.op == OpMul {
+		if tt.scaled == nil {
+			tt.scaled = map[int]bool{}
+		}
+		tt.scaled[t.id] = true
+	}
+	return t
+}
+
+func (tt *TermTable) scaledParts(t *Term) (*Term, uint64, bool) {
+	if t.op == OpMul && tt.scaled[t.id] && t.args[1].IsConst() {
+		return t.args[0], t.args[1].val, true
+	}
+	return nil, 0, false
+}
+
+func floorDiv(a, b int64) int64 {
+	q := a / b
+	if (a%b != 0) && ((a < 0) != (b < 0)) {
+		q--
+	}
+	return q
+}
+
 func (tt *TermTable) Bin(op Op, a, b *Term) *Term {
 	if a.sort != b.sort {
 		panic(fmt.Sprintf("binop %v sort mismatch %v %v", opNames[op], a.sort, b.sort))
 	}
 	w := a.sort.W
+	if (op == OpAdd || op == OpSub) && w == 64 && len(tt.scaled) > 0 {
+		if x, c, ok := tt.scaledParts(a); ok {
+			if y, c2, ok2 := tt.scaledParts(b); ok2 && c2 == c {
+				return tt.MulScaled(tt.Bin(op, x, y), c)
+			}
+			if b.IsConst() && b.I64()%int64(c) == 0 {
+				return tt.MulScaled(tt.Bin(op, x, tt.Const(64, uint64(b.I64()/int64(c)))), c)
+			}
+		} else if y, c, ok := tt.scaledParts(b); ok && a.IsConst() && a.I64()%int64(c) == 0 {
+			return tt.MulScaled(tt.Bin(op, tt.Const(64, uint64(a.I64()/int64(c))), y), c)
+		}
+	}
 	if a.IsConst() && b.IsConst() {
 		x, y := a.val, b.val
 		var r uint64
@@ -517,6 +578,26 @@ func (tt *TermTable) Cmp(op Op, a, b *Term) *Term {
 		panic(fmt.Sprintf("cmp sort mismatch %v %v", a.sort, b.sort))
 	}
 	w := a.sort.W
+	if (op == OpSlt || op == OpSle) && w == 64 && len(tt.scaled) > 0 {
+		x, c, okx := tt.scaledParts(a)
+		y, c2, oky := tt.scaledParts(b)
+		switch {
+		case okx && oky && c == c2:
+			return tt.Cmp(op, x, y)
+		case okx && b.IsConst():
+			k := b.I64()
+			if op == OpSlt { // x*c < k  <=>  x < ceil(k/c)
+				return tt.Cmp(OpSlt, x, tt.Const(64, uint64(-floorDiv(-k, int64(c)))))
+			}
+			return tt.Cmp(OpSle, x, tt.Const(64, uint64(floorDiv(k, int64(c))))) // x*c <= k <=> x <= floor(k/c)
+		case oky && a.IsConst():
+			k := a.I64()
+			if op == OpSlt { // k < y*c  <=>  floor(k/c) < y
+				return tt.Cmp(OpSlt, tt.Const(64, uint64(floorDiv(k, int64(c2)))), y)
+			}
+			return tt.Cmp(OpSle, tt.Const(64, uint64(-floorDiv(-k, int64(c2)))), y) // k <= y*c <=> ceil(k/c) <= y
+		}
+	}
 	if a.IsConst() && b.IsConst() {
 		switch op {
 		case OpUlt:
@@ -590,6 +671,9 @@ func (tt *TermTable) BNot(a *Term) *Term {
 func (tt *TermTable) Neg(a *Term) *Term {
 	if a.IsConst() {
 		return tt.Const(a.sort.W, -a.val)
+	}
+	if x, c, ok := tt.scaledParts(a); ok {
+		return tt.MulScaled(tt.Neg(x), c)
 	}
 	return tt.mk(OpNeg, a.sort, 0, "", a)
 }
